@@ -69,7 +69,14 @@ def use_tree():
     for name in list(sys.modules):
         if name == "pyrtcm" or name.startswith("pyrtcm."):
             raise HarnessError("pyrtcm imported before use_tree()")
+    import logging
+
     import pyrtcm  # noqa: F401
+
+    # pyrtcm logs handled errors; keep them off stderr (behaviour unchanged)
+    lg = logging.getLogger("pyrtcm")
+    lg.addHandler(logging.NullHandler())
+    lg.propagate = False
 
     got = os.path.dirname(os.path.abspath(pyrtcm.__file__))
     if os.path.realpath(got) != os.path.realpath(os.path.join(src, "pyrtcm")):
